@@ -38,6 +38,20 @@ def strategy_(g):
         "b": g.pose(k, s=g.choice([s, 1.0])),
         "pt": g.pose(R.POINT_OF[k], s=g.choice([s, 1.0])),
     }
+    if g.choice([False] * 5 + [True]):
+        # whole-number / dyadic coordinates, the two poses sharing their rotation bitwise, with translation differences that cancel
+        # in a sum ((1,-1,0), (0.5,0,-0.5), (2,-1,-1), ...) or vanish: exact special values of the kind real data has
+        n = R.PDIM[k]
+        base_t = [float(g.rnd.randint(-4, 4)) for _ in range(n)]
+        diffs3 = [(1, -1, 0), (0.5, 0, -0.5), (2, -1, -1), (0, 0, 0), (-3, 1, 2), (0.25, -0.25, 0)]
+        d3 = list(g.rnd.choice(diffs3))
+        g.rnd.shuffle(d3)
+        dd = d3[:n] if n == 3 else g.rnd.choice([[1.0, -1.0], [0.5, -0.5], [0.0, 0.0], [-2.0, 2.0]])
+        case["a"]["v"][:n] = [t + d for t, d in zip(base_t, dd)]
+        case["b"]["v"][:n] = base_t
+        case["b"]["v"][n:] = list(case["a"]["v"][n:])
+        case["pt"]["v"][:n] = [t - d for t, d in zip(base_t, dd)]
+        case["special_values"] = True
     case["same_object"] = g.choice([False, False, True])
     # R^n poses / points keep a view of the caller's float64 array: they may be slices of a longer buffer (a landmark table)
     case["views"] = g.choice([False, False, True])
@@ -123,6 +137,8 @@ def check(case, ctx):
     S_ = gs.max_trans(case["a"], case["b"], case["pt"])
     ctx.nontrivial(any(gs.outside_suite_box(case[x]) for x in ("a", "b", "pt")))
     ctx.event("%s:%s" % (k, m))
+    if case.get("special_values"):
+        ctx.event("dyadic-coordinates-with-cancelling-differences")
     if k == "se3":
         if case["a"]["v"][6] < 0 or case["b"]["v"][6] < 0:
             ctx.event("w<0")
